@@ -2,7 +2,7 @@
    to the model's answer and, where the property has an executable spec, the spec's answer.
    Extracted to OCaml; the hand-written driver only parses and prints tokens. *)
 From Coq Require Import ZArith Bool List String.
-From HF Require Import MachInt Outcome GenConsts GenLeap GenUnits Duration Epoch Gregorian TimeSeries F64 DurationF64 Views SignedNs Civil LeapSpec.
+From HF Require Import MachInt Outcome GenConsts GenLeap GenUnits GenText Text Duration Epoch Gregorian TimeSeries F64 DurationF64 Views TextFmt SignedNs Civil LeapSpec.
 Import ListNotations.
 Open Scope Z_scope.
 
@@ -442,7 +442,155 @@ Definition dispatch_views (name : string) (a : list tok) : option (list tok * li
   | _, _ => None
   end.
 
+(* ------------------------------------------------------------------ text: renderings ---- *)
+Definition tstr (s : str) : list tok := [TL s].
+Definition trender (r : render_res) : list tok :=
+  match r with ROk s => [TL s] | RFmtError => [TErr 1] | RUnreachable => [TPanic] | RUnmodelled => nospec end.
+(* Debug of a Format: EpochFormat:`<token name><sep><sep2>[?]...` *)
+Definition format_debug (f : format) : str :=
+  [69;112;111;99;104;70;111;114;109;97;116;58;96] ++
+  flat_map (fun it => nth_str (token it) TOKEN_NAMES ++ (match sep_char it with Some c => [c] | None => [] end) ++
+                      (match second_sep_char it with Some c => [c] | None => [] end) ++ (if optional it then [63] else [])) f ++ [96].
+Definition predefined_by_index (k : Z) : format :=
+  predefined (match k with 0 => FMT_ISO8601 | 1 => FMT_ISO8601_FLEX | 2 => FMT_RFC3339 | 3 => FMT_RFC3339_FLEX | 4 => FMT_ISO8601_DATE
+              | 5 => FMT_ISO8601_ORDINAL | 6 => FMT_RFC2822 | 7 => FMT_RFC2822_LONG | _ => FMT_ISO8601_STD end).
+(* spec of the Gregorian fields of (scale, count): from the calendar spec *)
+Definition spec_fields (t v : Z) : option (Z * Z * Z * Z * Z * Z * Z) :=
+  let w := v + spec_gregorian_zero t in
+  if in_rangev w then
+    let '(y, m, d) := civil_of_days (w / NS_PER_DAY) in let r := w mod NS_PER_DAY in
+    Some (y, m, d, r / (3600 * NS_PER_S), r / (60 * NS_PER_S) mod 60, r / NS_PER_S mod 60, r mod NS_PER_S)
+  else None.
+Definition spec_ts_name (t : Z) : str :=
+  match t with 0 => [84;65;73] | 1 => [84;84] | 2 => [69;84] | 3 => [84;68;66] | 4 => [85;84;67] | 5 => [71;80;83;84]
+             | 6 => [71;83;84] | 7 => [66;68;84] | _ => [81;90;83;83;84] end.
+Definition spec_greg_str (t : Z) (f : Z * Z * Z * Z * Z * Z * Z) (suffix : str) : str :=
+  let '(y, mm, dd, hh, mi, s, ns) := f in
+  fmt_int 4 y ++ [45] ++ fmt_int 2 mm ++ [45] ++ fmt_int 2 dd ++ [84] ++ fmt_int 2 hh ++ [58] ++ fmt_int 2 mi ++ [58] ++ fmt_int 2 s ++
+  (if ns =? 0 then [] else [46] ++ fmt_int 9 ns) ++ suffix.
+
+(* ---- spec of strftime-style rendering: walk the format string itself ----
+   literal characters are held back and printed before the next token that prints; an optional token ('?' right after
+   its letter) that is zero / UTC prints nothing and drops the separators held back; trailing separators are dropped *)
+Definition SPEC_WEEKDAYS : list str :=
+  [[77;111;110;100;97;121]; [84;117;101;115;100;97;121]; [87;101;100;110;101;115;100;97;121]; [84;104;117;114;115;100;97;121];
+   [70;114;105;100;97;121]; [83;97;116;117;114;100;97;121]; [83;117;110;100;97;121]].
+Definition SPEC_MONTHS : list str :=
+  [[74;97;110;117;97;114;121]; [70;101;98;114;117;97;114;121]; [77;97;114;99;104]; [65;112;114;105;108]; [77;97;121]; [74;117;110;101];
+   [74;117;108;121]; [65;117;103;117;115;116]; [83;101;112;116;101;109;98;101;114]; [79;99;116;111;98;101;114]; [78;111;118;101;109;98;101;114];
+   [68;101;99;101;109;98;101;114]].
+Record spec_ctx := mkCtx { cx_fields : Z * Z * Z * Z * Z * Z * Z; cx_wd : Z; cx_doy : Z; cx_ts : Z; cx_off : Z (* offset in ns *) }.
+(* (text, is_zero_like) of a token letter; None = outside the property's token list *)
+Definition spec_token (cx : spec_ctx) (l : Z) : option (str * bool) :=
+  let '(y, mm, dd, hh, mi, s, ns) := cx_fields cx in
+  match l with
+  | 89 => Some (fmt_int 4 y, false) | 109 => Some (fmt_int 2 mm, false) | 100 => Some (fmt_int 2 dd, false)
+  | 72 => Some (fmt_int 2 hh, false) | 77 => Some (fmt_int 2 mi, false) | 83 => Some (fmt_int 2 s, false)
+  | 102 => Some (fmt_int 9 ns, ns =? 0)
+  | 106 => Some (fmt_int 3 (cx_doy cx), false)
+  | 65 => Some (nth_str (cx_wd cx) SPEC_WEEKDAYS, false) | 97 => Some (firstn 3 (nth_str (cx_wd cx) SPEC_WEEKDAYS), false)
+  | 66 => Some (nth_str (mm - 1) SPEC_MONTHS, false) | 98 => Some (firstn 3 (nth_str (mm - 1) SPEC_MONTHS), false)
+  | 84 => Some (spec_ts_name (cx_ts cx), cx_ts cx =? 4)
+  | 122 => let o := Z.abs (cx_off cx) in
+           if o mod (60 * NS_PER_S) =? 0 then
+             Some ([if 0 <=? cx_off cx then 43 else 45] ++ fmt_int 2 (o / (3600 * NS_PER_S)) ++ [58] ++ fmt_int 2 (o / (60 * NS_PER_S) mod 60), false)
+           else None
+  | _ => None
+  end.
+Fixpoint spec_render_walk (cx : spec_ctx) (fmt : str) (pending : str) (ntok : nat) (fuel : nat) : option str :=
+  match fuel with O => None | S fuel' =>
+  match fmt with
+  | [] => Some []
+  | 37 :: l :: rest =>
+      if (16 <=? Z.of_nat ntok) then None else
+      match spec_token cx l with
+      | None => None
+      | Some (text, zero_like) =>
+          let '(opt, rest') := match rest with 63 :: r => (true, r) | _ => (false, rest) end in
+          if opt && zero_like then spec_render_walk cx rest' [] (S ntok) fuel'
+          else option_map (fun tl => pending ++ text ++ tl) (spec_render_walk cx rest' [] (S ntok) fuel')
+      end
+  | 37 :: [] => None
+  | c :: rest =>
+      if (c =? 63) || (2 <=? Z.of_nat (List.length pending)) || (ntok =? 0)%nat then None   (* '?' elsewhere, >2 separators, leading text: outside the property *)
+      else spec_render_walk cx rest (pending ++ [c]) ntok fuel'
+  end end.
+Definition spec_render (t v off : Z) (fmt : str) : list tok :=
+  match spec_fields t v, sweekday_tai t v with
+  | Some f, Some wd =>
+      let '(y, _, _, _, _, _, _) := f in
+      let w := v + spec_gregorian_zero t in
+      let doy := w / NS_PER_DAY - civil_days y 1 1 + 1 in
+      match spec_render_walk (mkCtx f wd doy t off) fmt [] 0 (S (List.length fmt)) with Some s => [TL s] | None => nospec end
+  | _, _ => nospec
+  end.
+Definition DOC_FORMAT (k : Z) : str :=
+  let ymd_hms := [37;89;45;37;109;45;37;100;84;37;72;58;37;77;58;37;83] in   (* %Y-%m-%dT%H:%M:%S *)
+  match k with
+  | 0 => ymd_hms ++ [46;37;102;32;37;84]            (* .%f %T *)
+  | 1 => ymd_hms ++ [46;37;102;63;32;37;84;63]      (* .%f? %T? *)
+  | 2 => ymd_hms ++ [46;37;102;37;122]              (* .%f%z *)
+  | 3 => ymd_hms ++ [46;37;102;63;37;122]           (* .%f?%z *)
+  | 4 => [37;89;45;37;109;45;37;100]                (* %Y-%m-%d *)
+  | 5 => [37;89;45;37;106]                          (* %Y-%j *)
+  | 6 => [37;97;44;32;37;100;32;37;98;32;37;89;32;37;72;58;37;77;58;37;83]    (* %a, %d %b %Y %H:%M:%S *)
+  | 7 => [37;65;44;32;37;100;32;37;66;32;37;89;32;37;72;58;37;77;58;37;83]    (* %A, %d %B %Y %H:%M:%S *)
+  | _ => ymd_hms ++ [46;37;102;32]                  (* ISO8601_STD documents no string of its own: "the ISO8601 format without the
+                                                       time scale", i.e. ISO8601 with its last token removed: .%f followed by the space *)
+  end.
+(* spec of Duration's Display *)
+Definition spec_display_duration (v : Z) : str :=
+  if v =? 0 then [48; 32; 110; 115] else
+  let a := Z.abs v in
+  let comps := [(a / 86400000000000, if 1 <? a / 86400000000000 then [100;97;121;115] else [100;97;121]);
+                (a / 3600000000000 mod 24, [104]); (a / 60000000000 mod 60, [109;105;110]); (a / 1000000000 mod 60, [115]);
+                (a / 1000000 mod 1000, [109;115]); (a / 1000 mod 1000, [956;115]); (a mod 1000, [110;115])] in
+  let parts := map (fun p => fmt_int 0 (fst p) ++ [32] ++ snd p) (filter (fun p => 0 <? fst p) comps) in
+  (if v <? 0 then [45] else []) ++
+  match parts with [] => [] | p :: r => p ++ flat_map (fun q => 32 :: q) r end.
+
+Definition dispatch_text (name : string) (a : list tok) : option (list tok * list tok) :=
+  match name, a with
+  | "disp_dur"%string, [TZ c; TZ n] => Some (tstr (display_duration (from_parts c n)), tstr (spec_display_duration (pval c n)))
+  | "disp_epoch"%string, [TZ c; TZ n; TZ t] =>
+      let t := norm_ts t in
+      Some (tstr (display_epoch (mk_epoch c n t)),
+            match spec_fields t (pval c n) with Some f => tstr (spec_greg_str t f ([32] ++ spec_ts_name t)) | None => nospec end)
+  | "greg_str"%string, [TZ c; TZ n; TZ t; TZ t2] =>
+      let t := norm_ts t in let t2 := norm_ts t2 in
+      Some (topt tstr (to_gregorian_str (mk_epoch c n t) (ts_of_Z t2)),
+            match sconv t (pval c n) t2 with
+            | Some v2 => match spec_fields t2 v2 with Some f => tstr (spec_greg_str t2 f ([32] ++ spec_ts_name t2)) | None => nospec end
+            | None => nospec end)
+  | "rfc3339"%string, [TZ c; TZ n; TZ t] =>
+      let t := norm_ts t in
+      Some (topt tstr (to_rfc3339 (mk_epoch c n t)),
+            match sconv t (pval c n) 4 with
+            | Some v2 => match spec_fields 4 v2 with Some f => tstr (spec_greg_str 4 f [43;48;48;58;48;48]) | None => nospec end
+            | None => nospec end)
+  | "fmt_debug"%string, [TL s] =>
+      Some (match format_from_str s with inl f => tstr (format_debug f) | inr UnknownFormat => [TErr 1] | inr (UnknownToken c) => [TErr 2; TZ c] end, nospec)
+  | "fmt_const"%string, [TZ k] =>
+      (* each predefined format is the format string it documents *)
+      Some (tstr (format_debug (predefined_by_index k)),
+            match format_from_str (DOC_FORMAT k) with inl f => tstr (format_debug f) | inr _ => [TErrAny] end)
+  | "fmt_render"%string, [TZ c; TZ n; TZ t; TZ oc; TZ on; TZ mode; TL fs] =>
+      let t := norm_ts t in let e := mk_epoch c n t in
+      Some (match format_from_str fs with
+            | inl f => trender (if mode =? 0 then formatter_new e f else formatter_with_timezone e (from_parts oc on) f)
+            | inr _ => [TErr 9] end,
+            if mode =? 0 then spec_render t (pval c n) 0 fs
+            else let v' := pval c n + pval oc on in if in_rangev v' then spec_render t v' (pval oc on) fs else nospec)
+  | "fmt_render_const"%string, [TZ c; TZ n; TZ t; TZ oc; TZ on; TZ mode; TZ k] =>
+      let t := norm_ts t in let e := mk_epoch c n t in let f := predefined_by_index k in
+      Some (trender (if mode =? 0 then formatter_new e f else formatter_with_timezone e (from_parts oc on) f),
+            if mode =? 0 then spec_render t (pval c n) 0 (DOC_FORMAT k)
+            else let v' := pval c n + pval oc on in if in_rangev v' then spec_render t v' (pval oc on) (DOC_FORMAT k) else nospec)
+  | _, _ => None
+  end.
+
 Definition dispatch (name : string) (a : list tok) : option (list tok * list tok) :=
+  match dispatch_text name a with Some r => Some r | None =>
   match dispatch_views name a with Some r => Some r | None =>
   match dispatch_float name a with Some r => Some r | None =>
   match dispatch_duration name a with
@@ -451,17 +599,10 @@ Definition dispatch (name : string) (a : list tok) : option (list tok * list tok
             | Some r => Some r
             | None => dispatch_calendar name a
             end
-  end end end.
+  end end end end.
 
 (* decimal I/O helpers for the driver, so that the OCaml side needs no bignum code *)
 
 Definition z_of_digits (neg : bool) (ds : list Z) : Z :=
   let v := fold_left (fun acc d => acc * 10 + d) ds 0 in if neg then - v else v.
-Fixpoint pos_digits (fuel : nat) (z : Z) (acc : list Z) : list Z :=
-  match fuel with
-  | O => acc
-  | S f => if z <? 10 then z :: acc else pos_digits f (z / 10) (z mod 10 :: acc)
-  end.
-(* digits of |z|, most significant first; fuel = bit length bounds the digit count *)
-Definition z_digits (z : Z) : list Z := pos_digits (S (Z.to_nat (Z.log2 (Z.abs z + 1)))) (Z.abs z) [].
 Definition z_is_neg (z : Z) : bool := z <? 0.
